@@ -318,7 +318,7 @@ func (vc *FuncVC) execute() {
 		for _, l := range vc.c.Lets {
 			t := vc.tr(e, l.E)
 			got := t.GoT
-			t = vc.nameTerm(t, "let_"+l.Name)
+			t = vc.nameTermMin(t, "let_"+l.Name, 40)
 			t.GoT = got
 			vc.lets[l.Name] = t
 			e.vars[l.Name] = t
